@@ -18,6 +18,7 @@ def install_all(reg):
     succession_diagram._install_skip3(reg)
     succession_diagram._install_skip4(reg)
     succession_diagram._install_compare(reg)
+    succession_diagram._install_state(reg)
     from . import attractors
     attractors.install(reg)
     attractors.install_sets(reg)
